@@ -64,15 +64,15 @@ PROPERTIES = {
         'assumptions': [],
     },
     'C03': {
-        'functions': ['BaseEvent.__await__.wait', 'EventBus.process_event', 'CleanShutdownQueue.get_nowait', 'BaseEvent.event_completed_signal', 'BaseEvent.event_mark_complete_if_all_handlers_completed', 'BaseEvent.event_are_all_children_complete', 'BaseEvent.event_children'] + ['BaseEvent.event_completed_at', 'BaseEvent.event_status', 'EventBus._execute_handlers', 'EventBus._get_applicable_handlers'],
+        'functions': ['BaseEvent.__await__.wait', 'EventBus.process_event', 'CleanShutdownQueue.get_nowait', 'BaseEvent.event_completed_signal', 'BaseEvent.event_mark_complete_if_all_handlers_completed', 'BaseEvent.event_are_all_children_complete', 'BaseEvent.event_children', 'BaseEvent.event_children#body'] + ['BaseEvent.event_completed_at', 'BaseEvent.event_status', 'EventBus._execute_handlers', 'EventBus._get_applicable_handlers'],
         'level': 'other',
-        'trusted_base': AWAIT_TB + ['event_are_all_children_complete: verified with an inductive contract over its visited set, assuming P6 (distinct events have distinct event_id); event_children: view contract assumed'],
+        'trusted_base': AWAIT_TB + ['event_are_all_children_complete: verified with an inductive contract over its visited set, assuming P6 (distinct events have distinct event_id); event_children: the view clauses used by callers are verified against its body (contract BaseEvent.event_children#body, positional invariant with ghost offsets)'],
         'not_decided': ['"always returns" and "the waiter is released without further stimulus" are liveness; the converse direction is stated for the direct parent only '
                         '(process_event/ensures:completion_propagated_to_parent, open finding F11), not for the whole ancestor chain'],
         'assumptions': [],
     },
     'C04': {
-        'functions': ['BaseEvent.__await__.wait', 'EventBus.process_event', 'CleanShutdownQueue.get_nowait', 'BaseEvent.event_completed_signal', 'BaseEvent.event_mark_complete_if_all_handlers_completed', 'BaseEvent.event_are_all_children_complete', 'BaseEvent.event_children'] + ['ReentrantLock.__aenter__', 'ReentrantLock.__aexit__'],
+        'functions': ['BaseEvent.__await__.wait', 'EventBus.process_event', 'CleanShutdownQueue.get_nowait', 'BaseEvent.event_completed_signal', 'BaseEvent.event_mark_complete_if_all_handlers_completed', 'BaseEvent.event_are_all_children_complete', 'BaseEvent.event_children', 'BaseEvent.event_children#body'] + ['ReentrantLock.__aenter__', 'ReentrantLock.__aexit__'],
         'level': 'other',
         'trusted_base': AWAIT_TB,
         'not_decided': ['deadlock freedom as such (liveness); decided: the handler branch never takes the lock nor calls step(), and what it returns'],
@@ -127,7 +127,7 @@ PROPERTIES = {
                       'EventBus.process_event', 'EventBus._execute_handlers', 'EventBus.execute_handler', 'EventBus.step', 'EventBus._get_next_event',
                       'BaseEvent.event_result_update', 'EventResult.update', 'EventBus._default_wal_handler', 'EventBus._default_log_handler',
                       'BaseEvent.event_mark_complete_if_all_handlers_completed', 'EventBus.cleanup_event_history', 'BaseEvent.event_cancel_pending_child_processing',
-                      'BaseEvent.event_children', 'BaseEvent.event_are_all_children_complete', 'bubus.get_handler_name'],
+                      'BaseEvent.event_children', 'BaseEvent.event_children#body', 'BaseEvent.event_are_all_children_complete', 'bubus.get_handler_name'],
         'level': 'other',
         'trusted_base': [AX[k] for k in ('A1', 'A2', 'A3', 'A5', 'A7', 'A8', 'A9', 'A10', 'X1', 'X2', 'P2', 'P5')] + [SERIAL_ONLY, HANDLER_MODEL,
             'rely (interference at suspension points): terminal results never change, started results are only changed by their own execute_handler, results are never removed from an event',
@@ -149,7 +149,7 @@ PROPERTIES = {
     },
     'C10': {
         'functions': ['BaseEvent.__await__.wait', 'EventBus.execute_handler', 'EventBus._execute_handlers', 'EventBus.process_event', 'EventBus.step', 'EventResult.update', 'BaseEvent.event_result_update',
-                      'BaseEvent.event_cancel_pending_child_processing', 'EventBus._get_next_event'],
+                      'BaseEvent.event_cancel_pending_child_processing', 'EventBus._get_next_event', 'BaseEvent.event_children', 'BaseEvent.event_children#body'],
         
         'trusted_base': [AX[k] for k in ('A1', 'A2', 'A3', 'A5', 'A8', 'A10', 'X1', 'X2')] + [SERIAL_ONLY, HANDLER_MODEL,
             'event_cancel_pending_child_processing: contract assumed (recursive walk), not verified'],
@@ -178,7 +178,7 @@ PROPERTIES = {
     'C08': {
         'functions': ['EventBus.process_event', 'EventResult.update', 'BaseEvent.event_result_update', 'BaseEvent.event_mark_complete_if_all_handlers_completed',
                       'BaseEvent.event_completed_at', 'BaseEvent.event_started_at', 'BaseEvent.event_status', 'BaseEvent.event_completed_signal',
-                      'BaseEvent.event_cancel_pending_child_processing', 'BaseEvent.event_children'],
+                      'BaseEvent.event_cancel_pending_child_processing', 'BaseEvent.event_children', 'BaseEvent.event_children#body'],
         'level': 'other',
         'trusted_base': [AX[k] for k in ('A1', 'A6', 'A10', 'X1', 'X2')],
         'not_decided': ['the two-state invariant "signalled => results frozen" is decided through its writer-side obligations only: no result is created on a signalled event (fails: F4), '
